@@ -174,7 +174,7 @@ func (s *SCEVGenericExpr) String() string {
 func (s *SCEVGenericExpr) StringWithRenamer(r Renamer) string {
 	x, y := s.X.StringWithRenamer(r), s.Y.StringWithRenamer(r)
 	// Operand order of a commutative operation carries no meaning: render it canonically.
-	if (s.Op == token.ADD || s.Op == token.MUL) && x > y {
+	if (s.Op == token.ADD || s.Op == token.MUL || s.Op == token.AND || s.Op == token.OR || s.Op == token.XOR) && x > y {
 		x, y = y, x
 	}
 	return fmt.Sprintf("(%s %s %s)", x, s.Op.String(), y)
